@@ -26,6 +26,58 @@ def _deref(env, i):
     return v
 
 
+class RawParams(list):
+    """A parameter list as the library returned it; normalised to plain data AFTER the op's fault window closed."""
+
+
+def normalise(L, x):
+    if isinstance(x, RawParams):
+        return _norm_value(L, list(x))
+    if isinstance(x, list):
+        return [normalise(L, y) for y in x]
+    return x
+
+
+class FaultWindow:
+    """Whole-op faults (sequential configurations): a faulty leaf armed, or the recursion limit lowered, for exactly
+    the library call of one op - not for the harness code around it."""
+
+    def __init__(self, env, spec):
+        self.env, self.spec, self.fired = env, spec, False
+
+    def __enter__(self):
+        sp = self.spec
+        if sp is None:
+            return self
+        if sp["kind"] == "leaf_exc":
+            st = self.env.leaf_state
+            st.armed, st.calls, st.fire_at = True, 0, sp["at"]
+        elif sp["kind"] == "recursion":
+            import sys
+            depth = 0
+            f = sys._getframe()
+            while f is not None:
+                depth += 1
+                f = f.f_back
+            self.old = sys.getrecursionlimit()
+            sys.setrecursionlimit(depth + sp["limit"])
+        return self
+
+    def __exit__(self, et, ev, tb):
+        sp = self.spec
+        if sp is None:
+            return False
+        if sp["kind"] == "leaf_exc":
+            st = self.env.leaf_state
+            self.fired = st.calls >= st.fire_at and et is not None and issubclass(et, RuntimeError)
+            st.armed = False
+        elif sp["kind"] == "recursion":
+            import sys
+            sys.setrecursionlimit(self.old)
+            self.fired = et is not None and issubclass(et, RecursionError)
+        return False
+
+
 # -------------------------------------------------------------------------- read events
 def do_render(env: Env, o, op):
     """A read event on object o; returns plain data."""
@@ -41,10 +93,10 @@ def do_render(env: Env, o, op):
     if mode == "par":
         if isinstance(o, L.queries.QueryBuilder):
             sql, vals = o.get_parameterized_sql(ctx)
-            return [sql, _norm_value(L, vals)]
+            return [sql, RawParams(vals)]
         p = L.terms.Parameterizer()
         sql = o.get_sql(ctx.copy(parameterizer=p))
-        return [sql, _norm_value(L, p.values)]
+        return [sql, RawParams(p.values)]
     if mode == "par_own":
         # caller-owned parameterizer that already holds k values: the render may only append
         p = L.terms.Parameterizer()
@@ -58,7 +110,7 @@ def do_render(env: Env, o, op):
         else:
             sql = o.get_sql(c2)
             same = True
-        return [sql, _norm_value(L, p.values), same]
+        return [sql, RawParams(p.values), same]
     if mode == "str":
         return str(o)
     if mode == "repr":
@@ -93,11 +145,13 @@ def do_dup(env: Env, o, op):
 
 
 # -------------------------------------------------------------------------- op execution
-def exec_op(env: Env, op, dup_identity=False):
+def exec_op(env: Env, op, dup_identity=False, op_fault=None):
     """Execute one op against env and return the slot content (never raises library errors)."""
     k = op["op"]
     L = env.L
     r = None
+    win = FaultWindow(env, op_fault)
+    env.last_op_fault = None
     for d in op_deps(op):
         v = _deref(env, d)
         if isinstance(v, (Failed, Skipped, Value)):
@@ -112,7 +166,8 @@ def exec_op(env: Env, op, dup_identity=False):
             a = [env.ev(y) for y in op.get("a", [])]
             kw = {kk: env.ev(v) for kk, v in op.get("kw", {}).items()}
             stage = "call"
-            res = getattr(r, op["m"])(*a, **kw)
+            with win:
+                res = getattr(r, op["m"])(*a, **kw)
             if res is r and getattr(r, "__dict__", {}).get("immutable", True) is False:
                 return MutableAlias(op["r"])
             return res
@@ -124,26 +179,34 @@ def exec_op(env: Env, op, dup_identity=False):
             a = [env.ev(y) for y in op.get("a", [])]
             kw = {kk: env.ev(v) for kk, v in op.get("kw", {}).items()}
             stage = "call"
-            j = r.join(item, how) if how is not None else r.join(item)
-            res = getattr(j, op["fin"])(*a, **kw)
+            with win:
+                j = r.join(item, how) if how is not None else r.join(item)
+                res = getattr(j, op["fin"])(*a, **kw)
             if res is r and getattr(r, "__dict__", {}).get("immutable", True) is False:
                 return MutableAlias(op["r"])
             return res
         if k == "render":
             stage = "call"
-            return Value(do_render(env, _deref(env, op["o"]), op))
+            o = _deref(env, op["o"])
+            with win:
+                raw = do_render(env, o, op)
+            return Value(normalise(L, raw))
         if k == "dup":
             stage = "call"
             o = _deref(env, op["o"])
             if dup_identity:
                 return _IdentityDup(op["o"])
-            return do_dup(env, o, op)
+            with win:
+                return do_dup(env, o, op)
         raise HarnessError("unknown op " + k)
     except InjectedFault as e:
         return Failed("InjectedFault", str(e), injected=True, stage=stage)
     except HarnessError:
         raise
     except Exception as e:  # noqa: BLE001  library exception: a legitimate outcome of the op
+        if win.fired:
+            env.last_op_fault = op_fault["kind"]
+            return Failed(type(e).__name__, str(e)[:200], injected=True, stage=stage)
         if stage == "call" and k in ("call", "join") and r is not None \
                 and getattr(r, "__dict__", {}).get("immutable", True) is False:
             return MutableAlias(op["r"], failed=type(e).__name__)
